@@ -41,6 +41,12 @@ func cmdReplay(args []string) int {
 	}
 	fmt.Printf("property    %v\nobligation  %v\nat          %v\nclaim       %v\nwhen found  solver=%v status=%v\n", rec["property"], rec["obligation"], rec["position"], rec["description"], rec["solver"], rec["solver_status"])
 	reproduces := false
+	if rec["kind"] == "bounded" {
+		// a bounded / structural check on the real code: the stored output names the failing input or store site
+		fmt.Printf("bound       %v\npackage     %v\noutput of the failing run:\n%v\n", rec["bound"], rec["package"], rec["output"])
+		fmt.Println("result      re-run the property's check to re-evaluate on the current tree (./check " + fmt.Sprint(rec["property"]) + ")")
+		return 1
+	}
 	if q, ok := rec["query_file"].(string); ok {
 		cmd := exec.Command("z3-new", "-T:60", q)
 		out, _ := cmd.CombinedOutput()
